@@ -94,17 +94,73 @@ def run_reader_positions(data):
 
 
 def run_reader(data, coffs=None):
+    """(records, exception, [], []) - the last two are kept for call
+    compatibility; whether data was short of the declared length is known by
+    construction of each case (see ``short_flags``), not from stream events,
+    so that readers which buffer read-ahead themselves are judged alike."""
     recs, exc, stream = common.read_records(data)
-    if coffs is None:
-        short = [e for e in stream.events
-                 if e[0] == 'read' and e[2] not in (96, -1) and e[3] < e[2]]
+    return recs, exc, [], []
+
+
+def short_flags(layout, present_len, override=None):
+    """For each section: are fewer content bytes present than its header
+    declares? ``override`` = (index, declared_length, content_offset) for a
+    perturbed header."""
+    out = []
+    for i, s in enumerate(layout):
+        if 'coff' not in s:
+            out.append(False)
+            continue
+        coff, declared = s['coff'], s['clen']
+        if override is not None and override[0] == i:
+            declared, coff = override[1], override[2]
+        elif override is not None and i > override[0]:
+            coff = coff + override[3]
+        avail = max(0, present_len - coff)
+        out.append(isinstance(declared, int) and declared > avail)
+    return out
+
+
+def expected_from_slice(sec, raw):
+    """What a reader must return for a content section whose content bytes
+    are ``raw`` (spec reading: split on the declared newline, strip up to
+    ``indent`` spaces per line, decode). Returns (ok, value); ok False =
+    "must be rejected" (no final newline / undecodable / not JSON)."""
+    import json
+    from mon.oracle.splitter import scan_split
+    nl = sec['nl']
+    codec = sec.get('codec')
+    if not raw:
+        return False, None
+    if sec['kind'] == 'diff':
+        return (True, raw) if raw.endswith(nl) else (False, None)
+    body = raw
+    indent = sec['options'].get('indent')
+    if sec['kind'] == 'preamble' and isinstance(indent, int) and indent > 0:
+        lines = []
+        for ln in scan_split(raw, nl):
+            k = 0
+            while k < indent and ln[k:k + 1] == b' ':
+                k += 1
+            lines.append(ln[k:])
+        body = b''.join(lines)
+    # the final-newline rule is applied to the un-indented content (a slice
+    # that ends inside the indentation of its next line is still complete)
+    if not body.endswith(nl):
+        return False, None
+    if codec is None:
+        text = body
     else:
-        st = getattr(stream, 'start', 0)
-        short = [e for e in stream.events
-                 if e[0] == 'read' and (e[1] - st) in coffs and
-                 0 <= e[3] < e[2]]
-    neg = [e for e in stream.events if e[0] == 'read' and e[2] < 0]
-    return recs, exc, short, neg
+        try:
+            text = body.decode(codec)
+        except UnicodeError:
+            return False, None
+    if sec['kind'] == 'meta':
+        try:
+            return True, json.loads(text)
+        except (ValueError, RecursionError):
+            return False, None
+    return True, text
 
 
 def ends_in_newline(content, rec):
@@ -139,7 +195,7 @@ def f8a_shape(present, nl, indent):
 
 def judge(recs, exc, short, neg, intact, case, obs, label, shape=None):
     """Prefix relation + error family."""
-    if exc is not None and type(exc).__name__ != 'DiffXParseError':
+    if exc is not None and not common.is_parse_error(exc):
         obs.violation('%s:non_parse_exception:%s' % (
             label, common.exc_mechanism(exc)), case, repr(exc))
         return False
@@ -151,7 +207,7 @@ def judge(recs, exc, short, neg, intact, case, obs, label, shape=None):
             continue
         d = common.diff_records([intact[i]], [r])
         kind = intact[i]['section'].lstrip('.')
-        if short:
+        if short and i < len(short) and short[i]:
             content_key = [k for k in common.CONTENT if k in r]
             rel = 'other'
             if content_key:
@@ -173,8 +229,7 @@ def judge(recs, exc, short, neg, intact, case, obs, label, shape=None):
                 % label
         else:
             mech = '%s:altered_section_yielded:%s' % (label, d[0])
-        obs.violation(mech, case, {'index': i, 'diff': d,
-                                   'short_reads': short[:2]})
+        obs.violation(mech, case, {'index': i, 'diff': d})
         return False
     return True
 
@@ -194,9 +249,9 @@ def check_file(data, layout, obs, tag, rng=None, cut_stride=1):
     first_content = next((s['hoff'] for s in layout if 'coff' in s),
                          len(data))
     n = 0
-    coffs = set(s['coff'] for s in layout if 'coff' in s)
     for c in range(0, len(data) + 1, cut_stride):
-        recs, exc, short, neg = run_reader(data[:c], coffs)
+        recs, exc, _s, _n = run_reader(data[:c])
+        short, neg = short_flags(layout, c), False
         cls = classify_cut(layout, c, len(data))
         if isinstance(cls, tuple):
             _, _, sec, off = cls
@@ -243,9 +298,14 @@ def check_file(data, layout, obs, tag, rng=None, cut_stride=1):
             mutated = (data[:sec['hoff']] + new_header +
                        data[sec['coff']:])
             delta = len(new_header) - len(header)
-            recs, exc, short, neg = run_reader(
-                mutated, set(c + delta if c >= sec['coff'] else c
-                             for c in coffs))
+            recs, exc, _s, _n = run_reader(mutated)
+            try:
+                declared = int(val) if len(val) < 4000 else None
+            except ValueError:
+                declared = None
+            neg = declared is not None and declared < 0
+            short = short_flags(layout, len(mutated),
+                                (idx, declared, sec['coff'] + delta, delta))
             obs.count('length_perturbations')
             obs.count('length:%s' % vkind)
             strong = vkind == 'bad' or (vkind == 'plus' and is_last)
@@ -260,29 +320,36 @@ def check_file(data, layout, obs, tag, rng=None, cut_stride=1):
             else:
                 judge(recs[:idx], exc, short, neg, intact, case, obs,
                       'length_%s' % vkind)
-                # a merely wrong length cannot be detected, but the reader
-                # must still take exactly the declared number of bytes
-                if val not in (b'1_0',):
-                    r2, positions, e2 = run_reader_positions(mutated)
-                    if len(r2) > idx:
-                        got = r2[idx]
-                        ck = [k for k in common.CONTENT if k in got]
-                        c0 = got[ck[0]] if ck else None
-                        if isinstance(c0, (bytes, str)) and (
-                                not c0 or not ends_in_newline(c0, got)):
-                            obs.violation(
-                                '%s:yielded_section_without_final_newline'
-                                % ('length_%s' % vkind), case,
-                                {'section': got['section'],
-                                 'content': c0[:60]})
-                    obs.count('exact_byte_count_checked')
-                    ff = framing_fails(mutated, positions)
-                    if ff:
-                        obs.violation(
-                            '%s:section_did_not_consume_declared_bytes'
-                            % ('length_%s' % vkind), case,
-                            {'section': ff[0][1], 'position': ff[0][2],
-                             'declared_end': ff[0][3]})
+                # a merely wrong length cannot be detected, but what the
+                # reader yields for that section must be exactly what the
+                # declared number of bytes denotes (and nothing may be
+                # yielded when those bytes do not end in the newline, do not
+                # decode or are not JSON)
+                if val not in (b'1_0',) and declared is not None and \
+                        declared >= 0 and 'line_endings' in sec['options'] \
+                        or (sec['kind'] == 'meta' and declared is not None
+                            and declared >= 0 and val != b'1_0'):
+                    coff2 = sec['coff'] + delta
+                    raw = mutated[coff2:coff2 + declared]
+                    if len(raw) == declared:
+                        obs.count('exact_byte_count_checked')
+                        ok, want_c = expected_from_slice(sec, raw)
+                        if len(recs) > idx:
+                            got = recs[idx]
+                            ck = [k for k in common.CONTENT if k in got]
+                            c0 = got[ck[0]] if ck else None
+                            if not ok:
+                                obs.violation(
+                                    '%s:yielded_section_without_final_'
+                                    'newline' % ('length_%s' % vkind), case,
+                                    {'section': got['section']})
+                            elif not common.strict_equal(c0, want_c):
+                                obs.violation(
+                                    '%s:section_content_is_not_the_declared_'
+                                    'bytes' % ('length_%s' % vkind), case,
+                                    {'section': got['section'],
+                                     'got': repr(c0)[:80],
+                                     'want': repr(want_c)[:80]})
 
 
 def common_fid(data):
@@ -323,14 +390,14 @@ def check_big(doc, obs):
             {'big_doc_sizes': [s.get('clen') for s in layout]},
             repr(exc)[:200])
         return
-    coffs = set(s['coff'] for s in layout if 'coff' in s)
     for s in layout:
         if 'coff' not in s:
             continue
         end = s['coff'] + s['clen']
         for c in (s['coff'], s['coff'] + 1, end - 1, end, end + 1):
             if 0 <= c <= len(data):
-                r2, e2, sh, ng = run_reader(data[:c], coffs)
+                r2, e2, _s, _n = run_reader(data[:c])
+                sh, ng = short_flags(layout, c), False
                 shape = [f8a_shape(data[x['coff']:c], x.get('nl'),
                                    x['options'].get('indent'))
                          if 'coff' in x and x['coff'] < c < x['coff'] +
@@ -373,8 +440,11 @@ def replay(case, obs):
     if 'cut' in case:
         from mon.oracle.newline import newline_bytes, detect_kind_bytes
         c = case['cut']
-        recs, exc, short, neg = run_reader(data[:c])
+        recs, exc, _s, _n = run_reader(data[:c])
         secs, _ = scanner.scan(data)
+        short = [('coff' in x and x['coff'] + len(x['raw']) > c)
+                 for x in secs]
+        neg = False
         shape = []
         for s in secs:
             ok = False
@@ -398,7 +468,16 @@ def replay(case, obs):
         new_header = re.sub(br'length=[^,\r\n]+', b'length=' + case['length'],
                             header, count=1)
         mutated = data[:sec['hoff']] + new_header + data[hend:]
-        recs, exc, short, neg = run_reader(mutated)
+        recs, exc, _s, _n = run_reader(mutated)
+        try:
+            dl = int(case['length'])
+        except ValueError:
+            dl = None
+        neg = dl is not None and dl < 0
+        short = [False] * len(secs)
+        if dl is not None and dl > len(mutated) - hend - (
+                len(new_header) - len(header)):
+            short[case['section_index']] = True
         if not case.get('strong', True):
             recs = recs[:case['section_index']]
         judge(recs, exc, short, neg, intact, case, obs,
